@@ -17,7 +17,7 @@ structure Case where
 
 def parseCase (line : String) : Option Case :=
   match splitWs line with
-  | ["spend", kind, depositor, extra, blind, wpkh, rpkh, lt, _sk, pk, pkh, flavor, txlock, seq, sh] => do
+  | ["spend", kind, depositor, extra, blind, wpkh, rpkh, lt, _sk, pk, pkh, flavor, txlock, seq, sh, _warm] => do
     let k ← (if kind = "p2sh" then some Kind.p2sh else if kind = "p2wsh" then some Kind.p2wsh else none)
     let depositor ← parseHex depositor
     let extra ← (if extra = "-" then some none else (parseHex extra).map some)
